@@ -43,6 +43,11 @@ func describe(v ssa.Value, depth int) string {
 	case *ssa.Convert:
 		return "conv[" + shortType(x.Type()) + "](" + describe(x.X, depth+1) + ")"
 	case *ssa.Alloc:
+		if st := storesTo(x); len(st) == 1 {
+			if prm, ok := st[0].Val.(*ssa.Parameter); ok {
+				return "param:" + prm.Name()
+			}
+		}
 		return "new:" + shortType(x.Type())
 	case *ssa.MakeClosure:
 		return "closure:" + shortFuncName(x.Fn.(*ssa.Function))
